@@ -113,6 +113,12 @@ def natsOf (xs : List Sexp) : List Nat :=
     | .atom a => a.toNat?
     | _ => none
 
+def bndOf : Sexp → Option Bnd
+  | .atom "unb" => some .unb
+  | .list [.atom "incl", .atom v] => (Val.ofCanon v).map .incl
+  | .list [.atom "excl", .atom v] => (Val.ofCanon v).map .excl
+  | _ => none
+
 /-- the write history as `StoreOp`s (the model's `replayStore` is what the theorems are about) -/
 def storeOpsOf (ops : List Sexp) : List StoreOp :=
   ops.filterMap fun op => match op with
@@ -125,6 +131,10 @@ def storeOpsOf (ops : List Sexp) : List StoreOp :=
       | some c', some a, some b => some (.del c' a b)
       | _, _, _ => none
     | .list [.atom "compact"] => some .compact
+    | .list [.atom "delr", .atom c, lo, hi] =>
+      match c.toNat?, bndOf lo, bndOf hi with
+      | some c', some l, some h => some (.delRange c' ⟨l, h⟩)
+      | _, _, _ => none
     | _ => none
 
 def field (name : String) (xs : List Sexp) : Option (List Sexp) :=
@@ -315,17 +325,16 @@ def answerQuery (t : TableMeta) (lay : List RowSet) (q : Sexp) : String :=
     | _, _ => "(ans unsupported)"
   | _ => "(ans bad-request)"
 
-def bndOf : Sexp → Option Bnd
-  | .atom "unb" => some .unb
-  | .list [.atom "incl", .atom v] => (Val.ofCanon v).map .incl
-  | .list [.atom "excl", .atom v] => (Val.ofCanon v).map .excl
-  | _ => none
-
 /-- storage-level request: `Transaction::scan(cols, filter, sorted)` -/
-def answerScan (t : TableMeta) (lay : List RowSet) (s : Sexp) : String :=
+def answerScan (t : TableMeta) (ncols : Nat) (lay0 : List RowSet) (s0 : Sexp) : String :=
+  -- a scan list with the row-handler column: the handler is column `ncols` of the extended rows
+  let (s, h) : Sexp × Nat := match s0 with
+    | .list [a, b, c, d, .atom hh] => (.list [a, b, c, d], (hh.toNat?).getD 0)
+    | x => (x, 0)
+  let lay := if h == 0 then lay0 else lay0.map (withHandler ncols)
   match s with
   | .list [.atom "s", .list (.atom "cols" :: cs), rg, .atom sorted] =>
-    let cols := natsOf cs
+    let cols := if h == 1 then natsOf cs ++ [ncols] else if h == 2 then ncols :: natsOf cs else natsOf cs
     let range : Option (Option KeyRange) := match rg with
       | .atom "none" => some none
       | .list [.atom "range", lo, hi] => match bndOf lo, bndOf hi with
@@ -531,11 +540,14 @@ def answer (line : String) : String :=
         | some xs => natsOf xs
         | none => []
       let t : TableMeta := { primary := primary, sortedByPk := true, intCols := intCols }
+      let ncolsT : Nat := match tb with
+        | .atom n :: _ => n.toNat?.getD 0
+        | _ => 0
       let all := (replayStore primary (storeOpsOf ops)).1.map (attachBlocks ((field "blocks" rest).getD []))
       let lay := (natsOf snap).filterMap fun i => all.find? (·.id == i)
       let scans := (field "scans" rest).getD []
       "(case " ++ id ++ " " ++ showLayout lay ++ " " ++ " ".intercalate (qs.map (answerQuery t lay)) ++
-        " " ++ " ".intercalate (scans.map (answerScan t lay)) ++ ")"
+        " " ++ " ".intercalate (scans.map (answerScan t ncolsT lay)) ++ ")"
     | _, _, _, _ => "(case " ++ id ++ " bad-request)"
   | _ => "bad-request"
 
